@@ -200,7 +200,7 @@ def _guarded(fn, obs):
 def run_map_once(p, desc, mode, storage, folder, obs):
     from concurrent.futures import ProcessPoolExecutor, ThreadPoolExecutor
 
-    inputs = mapgen.py_inputs(desc)
+    inputs = {k: terms.box_some(k, v) for k, v in mapgen.py_inputs(desc).items()}     # some argument values are dataclass instances
     ish = mapgen.internal_shapes_arg(desc)
     ex = None
     if mode in ("thread", "async"):
@@ -283,7 +283,7 @@ def map_injection(desc, inj, base, n):
                     state["targets"], state["picker"] = [], []
                     log.clear()
                     robs = {}
-                    inputs, ish = mapgen.py_inputs(desc), mapgen.internal_shapes_arg(desc)
+                    inputs, ish = {k: terms.box_some(k, v) for k, v in mapgen.py_inputs(desc).items()}, mapgen.internal_shapes_arg(desc)
                     _guarded(lambda: mapgen.quiet(p.map, inputs, run_folder=folder, internal_shapes=ish, parallel=False,
                                                   storage="file_array", cleanup=False), robs)
                     robs["calls"] = read_calls(log)
@@ -324,7 +324,7 @@ def call_injection(desc, inj, base, n):
         log.clear()
         obs = {}
         o = step["out"] if isinstance(step["out"], str) else tuple(step["out"])
-        kw = {k: terms.dec(v) for k, v in step["kw"]}
+        kw = {k: terms.box_some(k, terms.dec(v)) for k, v in step["kw"]}           # some argument values are dataclass instances
         entry = step.get("entry", "call")
 
         q = p
